@@ -18,7 +18,7 @@ from __future__ import annotations
 
 import ast
 
-from ..model import Program, dotted
+from ..model import Program, kwarg, dotted
 from ..report import Result
 from . import ix_common as I
 from . import eo_common as E
@@ -52,6 +52,42 @@ def ix_agg(prog: Program, res: Result) -> None:
             res.undecided("IX-agg", short, desc, where, "pairing of group index and values not derived")
 
 
+def agg_every_path(prog: Program, res: Result) -> None:
+    """from_aggregator: every definition of the values that reach the result is the reducer applied to a group
+    (accumarray(.., func=<reducer parameter>)) - also for groups of one entry, because a reducer need not be the identity on
+    singletons (logical_and reduces with `len(x) == 2`)."""
+    fi = prog.func("sptensor.sptensor.from_aggregator")
+    params = fi.params()
+    reducer = next((p_ for p_ in params if "function" in p_.lower() or "handle" in p_.lower() or p_ in ("func", "fun")), None)
+    desc = "every value stored by the aggregating constructor is the reducer applied to its group (groups of one entry included)"
+    accs = [n for n in ast.walk(fi.node) if isinstance(n, ast.Assign) and len(n.targets) == 1 and isinstance(n.targets[0], ast.Name)
+            and isinstance(n.value, ast.Call) and (dotted(n.value.func) or "").split(".")[-1] == "accumarray"]
+    if not accs or reducer is None:
+        res.undecided("IX-agg", fi.short, desc, prog.loc(fi), "accumarray assignment / reducer parameter not found")
+        return
+    vname = accs[0].targets[0].id
+    bad = None
+    for n in ast.walk(fi.node):
+        if isinstance(n, ast.Assign) and len(n.targets) == 1 and isinstance(n.targets[0], ast.Name) and n.targets[0].id == vname and n not in accs:
+            reads_self = any(isinstance(x, ast.Name) and x.id == vname for x in ast.walk(n.value))
+            empty = isinstance(n.value, ast.Call) and (dotted(n.value.func) or "").split(".")[-1] in ("array", "empty", "zeros") and n.value.args \
+                and ((isinstance(n.value.args[0], (ast.List, ast.Tuple)) and not n.value.args[0].elts)
+                     or (isinstance(n.value.args[0], ast.Tuple) and n.value.args[0].elts and isinstance(n.value.args[0].elts[0], ast.Constant)
+                         and n.value.args[0].elts[0].value == 0))
+            if not reads_self and not empty:
+                bad = bad or n
+    for a in accs:
+        f = kwarg(a.value, "func")
+        if f is None or not (isinstance(f, ast.Name) and f.id == reducer):
+            bad = bad or a
+    if bad is not None:
+        res.bad("IX-agg", fi.short, desc, prog.loc(fi, bad),
+                f"`{ast.unparse(bad)[:70]}` defines the stored values without applying `{reducer}`: on that path a reducer that is not the identity "
+                "on a single value (a count predicate, a custom function) is skipped")
+    else:
+        res.ok("IX-agg", fi.short, desc, prog.loc(fi, accs[0]), f"`{vname}` is only defined by accumarray(.., func={reducer})")
+
+
 def check(prog: Program, res: Result, tier: str) -> None:
     res.explanation = __doc__.split("\n\n", 1)[1]
     res.assumptions = [
@@ -64,3 +100,4 @@ def check(prog: Program, res: Result, tier: str) -> None:
     I.ix_rules(prog, res, sel, ("IX-dom", "IX-seq", "IX-pair", "IX-kind"))
     E.cnt_ctor(prog, res, sel)
     ix_agg(prog, res)
+    agg_every_path(prog, res)
